@@ -753,7 +753,16 @@ pub fn generate(profile: &Profile, seed: u64) -> Trace {
         short: if sink == 1 || sink == 3 { rng.range(1, 3) } else { 0 },
         salt: rng.next_u64() >> 16,
         family: p.name.to_string(),
+        use_new: false,
+        derived: false,
     };
+    let mut cfg = cfg;
+    // a third of the runs use the processor() generated by the derive macro, a few the deprecated constructor
+    cfg.derived = rng.chance(1, 3);
+    if rng.chance(1, 12) {
+        cfg.use_new = true;
+        cfg.prompt = 0;
+    }
     let n_units = rng.range(p.units.0, p.units.1);
     let fault_run = rng.chance(p.p_fault_run as usize, 1000);
     let mut g = Gen {
